@@ -16,13 +16,14 @@ import (
 )
 
 type half struct {
-	mu     sync.Mutex
-	cond   *sync.Cond
-	buf    []byte
-	cap    int
-	eof    bool // writer closed its side
-	rst    bool // connection reset
-	rdShut bool // reader went away: writes fail
+	mu          sync.Mutex
+	cond        *sync.Cond
+	buf         []byte
+	cap         int
+	eof         bool // writer closed its side
+	rst         bool // connection reset
+	rdShut      bool // reader went away: writes fail
+	eofWithData bool // the Read that takes the last buffered bytes reports io.EOF together with them
 }
 
 func newHalf(capacity int) *half {
@@ -38,10 +39,10 @@ func (a addr) String() string  { return string(a) }
 
 // Fault is what an injector returns for an operation.
 type Fault struct {
-	Err        error // return this error (after writing Short bytes for a write)
-	Short      int   // for writes: number of bytes actually delivered before Err
-	CloseAfter bool  // close the connection (locally) right after the operation completes
-	AfterAll   bool  // for writes: deliver ALL bytes to the peer, then report Err (the error arrives after the flush)
+	Err        error         // return this error (after writing Short bytes for a write)
+	Short      int           // for writes: number of bytes actually delivered before Err
+	CloseAfter bool          // close the connection (locally) right after the operation completes
+	AfterAll   bool          // for writes: deliver ALL bytes to the peer, then report Err (the error arrives after the flush)
 	Delay      time.Duration // the operation stalls this long before it proceeds (a full send buffer, a slow link)
 }
 
@@ -135,6 +136,9 @@ func (c *Conn) Read(p []byte) (int, error) {
 			h.buf = h.buf[n:]
 			h.cond.Broadcast()
 			c.BytesRead.Add(int64(n))
+			if len(h.buf) == 0 && h.eof && h.eofWithData {
+				return n, io.EOF // io.Reader: "n > 0 together with a non-nil error" is allowed
+			}
 			return n, nil
 		}
 		if h.eof {
@@ -218,6 +222,20 @@ func (c *Conn) CloseWrite() error {
 	h.cond.Broadcast()
 	h.mu.Unlock()
 	return nil
+}
+
+// WriteAndClose delivers p and the end of the stream in one step: the peer's Read that takes the last of these bytes
+// returns them together with io.EOF.
+func (c *Conn) WriteAndClose(p []byte) error {
+	h := c.wr
+	h.mu.Lock()
+	h.buf = append(h.buf, p...)
+	h.eof = true
+	h.eofWithData = true
+	h.cond.Broadcast()
+	h.mu.Unlock()
+	c.BytesWritten.Add(int64(len(p)))
+	return c.Close()
 }
 
 // Close closes this end: pending and later local operations fail with net.ErrClosed, the peer
